@@ -30,7 +30,13 @@ def reuse(spec, df, path: str):
     with warnings.catch_warnings(record=True) as w:
         warnings.simplefilter("always")
         try:
-            mm = spec.get_model_matrix(df, context={}) if path == "spec.get_model_matrix" else model_matrix(spec, df, context={})
+            if path == "spec.get_model_matrix":
+                mm = spec.get_model_matrix(df, context={})
+            elif path == "spec.get_model_matrix(overrides)":
+                # the recorded structure decides the columns: options that shaped the fit cannot reshape a replay
+                mm = spec.get_model_matrix(df, context={}, ensure_full_rank=not spec.ensure_full_rank, cluster_by="numerical_factors")
+            else:
+                mm = model_matrix(spec, df, context={})
             names, cells, labels, index, _ = matlib.alpha_matrix(mm, "pandas")
             out = {"st": "OK", "names": names, "cells": cells, "labels": labels}
         except FormulaMaterializationError as e:
@@ -84,7 +90,7 @@ def replay_case(case):
     n = 1
     state_before = repr(sorted((k, repr(v)) for k, v in spec.transform_state.items())) + repr(spec.column_names)
     for sname, s in specs:
-        for path in ("spec.get_model_matrix", "model_matrix(spec, data)"):
+        for path in ("spec.get_model_matrix", "model_matrix(spec, data)") + (("spec.get_model_matrix(overrides)",) if sname == "spec" else ()):
             b = {**base, "spec": sname, "path": path}
             if not case["sel"]:
                 bad += judge(case["whole"], reuse(s, Udf, path), b, "")
